@@ -59,6 +59,9 @@ def gen_case(rng, tier):
     op = rng.choice([0, 1, 2, 3, 3, 4, 5])
     d = rng.choice([1, 2, 3]) if tier == "quick" else rng.choice([1, 2, 3, 4, 5])
     span = rng.choice([0, 2, 6]) if tier == "quick" else rng.choice([0, 3, 10, 20, 40])
+    if op == 3 and span > 10:
+        # reversal inverts the innovation matrix: its conditioning grows like 2^(2 span) and dominates the comparison beyond 2^10
+        span = 10
     nmax = 4 if tier == "quick" else 6
     nin, nmid, nout = rng.randint(1, nmax), rng.randint(1, nmax), rng.randint(1, nmax)
     if op == 3 and nout > nin:
